@@ -6,6 +6,7 @@ CONSTANTS
   ForgetCloseOnFault = TRUE
   StaleLengthOnRenderFault = FALSE
   StatusStringAsIs = FALSE
+  ReturnOnDisconnect = FALSE
   Tier = "tiny"
   Ifaces = {"wsgi", "asgi"}
   Codes = {200, 204}
